@@ -5,27 +5,55 @@ CHECK = {
     "level": "proof",
     "rule": "one case = one (chip, instruction, operand class, scalar class) synthesised by the real chip and "
             "checked by the real MockProver; non-trivial = every case (distinctness by hash of the request "
-            "line, which carries the operand coordinates)",
+            "line, which carries the operand coordinates). Deliberately tight: the structural fingerprints "
+            "(`fingerprint`, `shape`, `acts` lines) change under any edit that adds, drops or reorders a "
+            "constraint-emitting call of an ECC instruction, including benign ones (e.g. swapping two "
+            "independent assertions); value lines do not",
     "explanation": "Lean theorems over the gate polynomials dumped from the real EccChip::configure (conditional-add, "
                    "double, membership) and over the field identities the foreign slope/tangent/lambda-squared/on-curve "
-                   "gates assert; executable Lean models of the native twisted-Edwards chip (values and the full content "
-                   "of the nine ECC columns) and of the foreign Weierstrass chip (values, identity flags) compared with "
-                   "the real chips on every instruction x operand class x scalar class; fault injection (hook H1) on the "
-                   "advice cells each instruction writes",
+                   "gates assert. Native chip: the twisted-Edwards law is proved complete AND associative (two degree-15 "
+                   "polynomial identities re-checked by the kernel), so EccChip::mul is proved to return [n]P for bit "
+                   "vectors of any length (n as an integer, scalar_mul_mod_order for values at/above the group order) "
+                   "from the gates alone. Foreign chip: add/double/negate/select and the identity swap of "
+                   "mul_by_constant over coordinates; incomplete_add with each exceptional case classified (P=-Q "
+                   "unsatisfiable, P=Q unconstrained, identity excluded by the flag equality); the table loop of "
+                   "windowed_msm proved from the single emitted incomplete_assert_different_x; mul_by_u128 and the "
+                   "window loop mirrored as relations whose additions are incomplete (abstract commutative group) and "
+                   "proved from the side conditions the chip emits / relies on, with a kernel-checked counterexample "
+                   "when the order condition fails. Executable Lean models of both chips (values, the nine native ECC "
+                   "columns, identity flags, gate activations, activation counts) compared with the real chips on every "
+                   "instruction x operand class x scalar class, including BLS12-381 curve points of order 3 and 11; "
+                   "fault injection (hook H1) on advice cells and forged result points (hook ecc::foreign::verif_hooks: "
+                   "prover-chosen coordinates of a fresh point) on every exceptional operand class of add/double",
     "trusted_base": [
         "group arithmetic of midnight-curves / k256 used as reference for the expected results (cross-checked by C11)",
         "CRT lift of the foreign-field identities (the foreign gates are taken at the level of the field identity they assert; C05)",
+        "the step from the coordinate-level theorems of the foreign chip to the abstract-group loop theorems: that the points "
+        "of y^2 = x^3 + b with the chord-tangent law form a commutative group is not proved (it is for the Edwards curve)",
     ],
-    "level_text": "Kernel-checked Lean theorems about the dumped gate polynomials of the native ECC chip and about the field "
-                  "identities asserted by the foreign ECC gates, plus executable models checked against the real chips "
-                  "through MockProver on every run",
-    "level_note": "Partial: associativity of the affine laws and the completeness side conditions (d non-square, -1 square) are "
-                  "explicit hypotheses; the foreign gates are modelled at the level of the emulated-field identity (C05 covers "
-                  "the emulation); hash-to-curve is tied to the CPU reference by correspondence only",
+    "level_text": "Kernel-checked Lean theorems about the dumped gate polynomials of the native ECC chip (including "
+                  "completeness and associativity of the addition law, hence the full scalar-multiplication loop) and about "
+                  "the field identities and the wiring of the foreign ECC instructions with every exceptional case of "
+                  "incomplete addition classified, plus executable models checked against the real chips through MockProver "
+                  "(honest, faulted and forged witnesses) on every run",
+    "level_note": "Partial: the completeness side conditions of the Edwards law (d non-square, -1 square) are explicit "
+                  "hypotheses (Euler criterion kernel-evaluated; primality of the modulus assumed); associativity of the "
+                  "Edwards law is now proved. Foreign chip: instruction-level theorems are over the emulated-field "
+                  "identities (C05 covers the emulation); mul_by_u128 / windowed_msm are proved over an abstract "
+                  "commutative group with incomplete additions, the Weierstrass group axioms themselves are not proved; "
+                  "GLV split, msm de-duplication and the lookup-based multi_select are tied by correspondence (values, "
+                  "activation counts, fingerprints) only; hash-to-curve and Jubjub (de)compression are tied to the CPU "
+                  "reference by correspondence only. Known findings (recorded, not repaired): mul_by_constant >= 2^128 on "
+                  "the identity; BLS12-381 points of small order reach incomplete_add with equal operands "
+                  "(honest proof rejected, forged result accepted)",
     "assumptions": [
-        "associativity of the twisted-Edwards and Weierstrass affine laws (hypothesis EdAssoc / group-law structure)",
         "primality of the native modulus (Euler criterion for d is kernel-evaluated; the step to 'd is a non-square' uses primality)",
+        "the points of the emulated Weierstrass curves form a commutative group under the chord-tangent law (loop-level theorems of the foreign chip)",
+        "every non-identity point handed to mul_by_u128 has no multiple m*P = O with 0 < m < 2^128 (true on secp256k1 and in the "
+        "prime-order subgroup of BLS12-381 G1; false for BLS12-381 curve points of small order: recorded finding)",
     ],
-    "technique": "gate ASTs dumped from configure + grind over Lean.Grind.Field; induction over the rows of the mul region",
+    "technique": "gate ASTs dumped from configure + grind over Lean.Grind.Field (ring normaliser with computer-algebra "
+                 "cofactors for associativity); induction over the rows of the mul region, over the table loop and over "
+                 "the relational double-and-add loops; counterexamples in ZMod 3",
     "timeout": {"quick": 900, "thorough": 3000, "search": 1200},
 }
